@@ -170,9 +170,9 @@ PROPS["C18"] = dict(
 )
 
 PROPS["C06"] = dict(
-    inject=[("src/bigint/convert.rs", "c06/parse.rs"), ("src/biguint/convert.rs", "c06/radix.rs")],
+    inject=[("src/bigint/convert.rs", "c06/parse.rs"), ("src/biguint/convert.rs", "c06/radix.rs"), ("src/bigint.rs", "c06/fmt.rs")],
     kani=[dict(filter_q="c06_q_", filter_t=["c06_q_", "c06_t_"], jobs=14, timeout_q=240, timeout_t=900)],
-    functions=["from_radix_be/from_radix_le (validation, empty input, value)", "from_radix_digits_be (single chunk)", "from_bitwise_digits_le / from_inexact_bitwise_digits_le",
+    functions=["Display/Binary/Octal/LowerHex/UpperHex for BigInt (arguments handed to Formatter::pad_integral)", "from_radix_be/from_radix_le (validation, empty input, value)", "from_radix_digits_be (single chunk)", "from_bitwise_digits_le / from_inexact_bitwise_digits_le",
                "to_radix_le -> to_bitwise_digits_le / to_inexact_bitwise_digits_le", "get_radix_base / get_half_radix_base tables (all 247 radices)", "radix range assertions of from_str_radix, from_radix_*, to_str_radix"],
     bounds_quick="digit-vector input: every digit string of length 0..3 for radices {10,16,256,3,255,8} incl. digits >= radix (None) and both byte orders; single-chunk Horner for 3/5/2 digits of radix 10/36/255; "
                  "power-of-two radices 2,8,16,32,256 (more thorough): output digits = bit groups of every 1..2-digit value, input of 9..22 digits; the compiled radix tables for ALL radices 3..255; out-of-range radices panic",
